@@ -222,8 +222,11 @@ def r8_3(ctx, rc):
         # (c) after a claim, every path to either exit passes finish_*
         starts = [n.id for n in sg.nodes if Q.is_done(n, claimq)]
         if not starts:
-            raise AnalysisError('claim %s not found in %s' % (claim,
-                                                               F.qualname))
+            rc.violation('claim-missing | %s | %s' % (F.qualname, claim),
+                         '%s never performs the atomic claim %s' % (
+                             F.qualname, claim), F.file,
+                         key='%s: %s exists' % (F.qualname, claim))
+            continue
         w = Q.first_unguarded(
             sg, starts, lambda x: Q.is_call(x, finq),
             lambda x: x.id in sg.all_exits())
